@@ -230,6 +230,119 @@ func shot(addr, script string) error {
 	return nil
 }
 
+// floods: one legal-looking frame repeated until per-connection state has accumulated past every natural boundary (the 10000 of the
+// priority-frame limit and of the control-frame queue, 2^16); the answers are read and thrown away all the while
+var floods = []string{"priority-70000", "headers-priority-rst-10500", "settings-12000", "ping-12000", "window-update-70000", "unknown-70000",
+	"data-empty-20000", "continuation-4000", "priority-then-request"}
+
+func flood(addr, script string) error {
+	raw, err := net.DialTimeout("tcp", addr, 2*time.Second)
+	if err != nil {
+		return err
+	}
+	defer raw.Close()
+	raw.SetDeadline(time.Now().Add(40 * time.Second))
+	tc := tls.Client(raw, &tls.Config{InsecureSkipVerify: true, ServerName: "vf.test", NextProtos: []string{"h2"}})
+	if err := tc.Handshake(); err != nil {
+		return err
+	}
+	go io.Copy(io.Discard, tc)
+	tc.Write([]byte(h2raw.Preface))
+	tc.Write(h2raw.Settings())
+	tc.Write(h2raw.SettingsAck())
+	req := func(sid uint32, end bool, prio *h2raw.Prio) []byte {
+		return h2raw.Headers(sid, end, h2raw.Block([]h2raw.HF{{":method", "POST"}, {":scheme", "https"}, {":authority", "vf.test"}, {":path", "/flood"}}), prio, 0)
+	}
+	var buf []byte
+	flush := func(force bool) error {
+		if len(buf) > 32<<10 || force {
+			_, err := tc.Write(buf)
+			buf = buf[:0]
+			return err
+		}
+		return nil
+	}
+	n := 0
+	switch script {
+	case "priority-70000", "priority-then-request":
+		n = 70000
+		if script == "priority-then-request" {
+			n = 10001
+		}
+		for i := 0; i < n; i++ {
+			buf = append(buf, h2raw.Priority(uint32(1+2*(i%5000)), h2raw.Prio{Dep: 0, Weight: uint8(i)})...)
+			if flush(false) != nil {
+				return nil
+			}
+		}
+		if script == "priority-then-request" {
+			// at the boundary: a request, one more PRIORITY frame, another request with a priority of its own
+			buf = append(buf, req(1, true, nil)...)
+			buf = append(buf, h2raw.Priority(3, h2raw.Prio{Dep: 0, Weight: 7})...)
+			buf = append(buf, req(3, true, &h2raw.Prio{Dep: 0, Weight: 9})...)
+		}
+	case "headers-priority-rst-10500":
+		for i := 0; i < 10500; i++ {
+			sid := uint32(1 + 2*i)
+			buf = append(buf, req(sid, false, &h2raw.Prio{Dep: 0, Weight: uint8(i)})...)
+			buf = append(buf, h2raw.RST(sid, 8)...)
+			if flush(false) != nil {
+				return nil
+			}
+		}
+	case "settings-12000":
+		for i := 0; i < 12000; i++ {
+			buf = append(buf, h2raw.Settings(h2raw.Setting{ID: 4, Val: uint32(65535 + i)})...)
+			if flush(false) != nil {
+				return nil
+			}
+		}
+	case "ping-12000":
+		for i := 0; i < 12000; i++ {
+			buf = append(buf, h2raw.Ping(false, [8]byte{byte(i), byte(i >> 8)})...)
+			if flush(false) != nil {
+				return nil
+			}
+		}
+	case "window-update-70000":
+		for i := 0; i < 70000; i++ {
+			buf = append(buf, h2raw.WindowUpdate(0, 1)...)
+			if flush(false) != nil {
+				return nil
+			}
+		}
+	case "unknown-70000":
+		for i := 0; i < 70000; i++ {
+			buf = append(buf, h2raw.Frame(0x42, 0, uint32(i%7), []byte{1})...)
+			if flush(false) != nil {
+				return nil
+			}
+		}
+	case "data-empty-20000":
+		buf = append(buf, req(1, false, nil)...)
+		for i := 0; i < 20000; i++ {
+			buf = append(buf, h2raw.Data(1, false, nil, -1)...)
+			if flush(false) != nil {
+				return nil
+			}
+		}
+		buf = append(buf, h2raw.Data(1, true, []byte("x"), -1)...)
+	case "continuation-4000":
+		blk := h2raw.Block([]h2raw.HF{{":method", "GET"}, {":scheme", "https"}, {":authority", "vf.test"}, {":path", "/flood"}})
+		buf = append(buf, h2raw.Frame(h2raw.THeaders, h2raw.FEndStream, 1, blk)...)
+		for i := 0; i < 4000; i++ {
+			buf = append(buf, h2raw.Frame(h2raw.TContinuation, 0, 1, nil)...)
+			if flush(false) != nil {
+				return nil
+			}
+		}
+		buf = append(buf, h2raw.Frame(h2raw.TContinuation, h2raw.FEndHeaders, 1, nil)...)
+	}
+	flush(true)
+	time.Sleep(300 * time.Millisecond)
+	return nil
+}
+
 // runStalls starts every script (or just one), waits several read timeouts, then asks whether the process still serves
 func runStalls(ch *Child, only string) error {
 	var held []net.Conn
@@ -679,6 +792,48 @@ func main() {
 			return
 		}
 		report["one_shot_scripts"] = shots
+		// floods, all at once, then each alone if the child suffers
+		var fwg sync.WaitGroup
+		for _, sc := range floods {
+			fwg.Add(1)
+			go func(sc string) { defer fwg.Done(); flood(ch.addr, sc) }(sc)
+		}
+		fwg.Wait()
+		if !ch.alive() || control(ch.addr) != nil {
+			why := "control requests fail after the floods"
+			if !ch.alive() {
+				why = "process exited: " + ch.exit
+			}
+			ch.stop()
+			found := false
+			for _, sc := range floods {
+				c2, e2 := startChild()
+				if e2 != nil {
+					break
+				}
+				flood(c2.addr, sc)
+				time.Sleep(50 * time.Millisecond)
+				if !c2.alive() || control(c2.addr) != nil {
+					s2 := c2.stderr.String()
+					if len(s2) > 1500 {
+						s2 = s2[:1500]
+					}
+					killers = append(killers, map[string]any{"frame_type": "FLOOD", "mode": sc, "open_header_block_on": 0, "bytes": "", "len": 0, "effect": why, "child_stderr_head": s2})
+					found = true
+				}
+				c2.stop()
+			}
+			if !found {
+				report["error"] = "child failed during the floods (" + why + ") but no single flood reproduces it"
+			}
+			report["killers"] = killers
+			report["outcomes"] = map[string]int{}
+			report["control_rounds"] = 0
+			b, _ := json.Marshal(report)
+			os.WriteFile(reportPath, b, 0o644)
+			return
+		}
+		report["floods"] = floods
 	}
 	window := func(hi int) []*Vector { // what may have been in flight when trouble was noticed
 		lo := hi - 4*P
